@@ -951,6 +951,71 @@ func posBody(items []posItem) func(c *mc.Ctx, item int) mc.Verdict {
 	}
 }
 
+// twoSectionsBody: two eexec sections in one stream (e.g. two fonts in one
+// file): the clear text that follows the first section contains a second
+// `currentfile eexec`; both must be transparent.
+func twoSectionsBody(c *mc.Ctx, item int) mc.Verdict {
+	np := len(plaintexts)
+	p1, p2 := plaintexts[item%np], plaintexts[(item/np)%np]
+	conts := (item / np / np) % 16
+	c1, c2 := conts%4, conts/4
+	if p1.eof {
+		return mc.Pass("n/a:first-section-ends-by-eof", false)
+	}
+	var tis []int
+	for _, ti := range trailersFor(p1) {
+		// the trailer of the first section must leave the stack usable; all do
+		tis = append(tis, ti)
+	}
+	ti := tis[c.Choose(len(tis))]
+	t2s := trailersFor(p2)
+	t2 := t2s[c.Choose(len(t2s))]
+	sep := "\n"
+	if trailers[ti].text == "" {
+		sep = "\n" // first section's closing white space is inside the ciphertext
+	}
+	prog := buildSection(p1, c1, "\n", defaultPrefixFor(c1), nil)
+	prog = append(prog, trailers[ti].text...)
+	prog = append(prog, sep...)
+	prog = append(prog, buildSection(p2, c2, " ", defaultPrefixFor(c2), nil)...)
+	prog = append(prog, trailers[t2].text...)
+	describe := func() string {
+		return fmt.Sprintf("two sections: %s (%s) + trailer %s, then %s (%s) + trailer %s: %s", p1.name, contNames[c1], trailers[ti].name, p2.name, contNames[c2], trailers[t2].name, show(prog))
+	}
+	intp := postscript.NewInterpreter()
+	err := intp.Execute(bytes.NewReader(prog))
+	c.Step()
+	got := snapshot(intp, err)
+	ref := postscript.NewInterpreter()
+	rerr := ref.ExecuteString(refProgram(p1, trailers[ti]) + sep + refProgram(p2, trailers[t2]))
+	want := snapshot(ref, rerr)
+	if strings.HasPrefix(want, "ERROR") {
+		// the combination is not a meaningful program in the clear either
+		return mc.Pass("n/a:clear-run-fails", false)
+	}
+	if got != want {
+		v := mc.Fail("C05:two-sections:state-differs", diffAt(got, want)+" | "+describe())
+		v.Render = describe()
+		return v
+	}
+	v := mc.Pass("two-sections-ok", true)
+	if c.Render() {
+		v.Render = describe()
+	}
+	return v
+}
+
+// defaultPrefixFor returns four lead bytes whose ciphertext is legal for the form.
+func defaultPrefixFor(cont int) [4]byte {
+	if cont == contBinary {
+		return defaultBinPrefix
+	}
+	return hexLegalPrefix
+}
+
+// hexLegalPrefix: ciphertext bytes whose hex armouring trivially consists of hex digits.
+var hexLegalPrefix = defaultBinPrefix
+
 func main() {
 	mc.Main(mc.Program{
 		Property: "C05",
@@ -1013,6 +1078,8 @@ func main() {
 				Describe: func(i int) string { return fmt.Sprintf("%+v", pi[i]) },
 				CrashKey: func(int) string { return "C05:position:crash" },
 				Rule:     "item = (plaintext, container of 4, gap of 2, trailer of 4); choices: every offset from 8 bytes before `eexec` to 8 bytes after the first token following the encrypted part x {padding comment so that the 512-byte refill boundary falls there, source delivering exactly that many bytes first}; differential oracle; non-trivial = final state differs from a fresh interpreter's"})
+			fams = append(fams, mc.Family{Name: "two-sections-in-one-stream", Items: len(plaintexts) * len(plaintexts) * 16, Body: twoSectionsBody, Budget: budget,
+				Rule: "item = (first plaintext, second plaintext, container of each from {binary, hex lower, hex upper, hex mixed}); choices = trailer after the first and after the second section; the program is section 1 + trailer + a second `currentfile eexec` section + trailer in ONE stream; state must equal the clear-text run of both (`systemdict begin .. end` twice); non-trivial = the clear-text run succeeds"})
 			return fams
 		},
 	})
